@@ -348,7 +348,16 @@ class Tracker:
             if t["k"] != "switch":
                 continue
             l = op_local(t["on"])
+            on = t["on"]
+            proj = on[1][1:] if on and on[0] in ("cp", "mv") and isinstance(on[1], list) else []
             for st in list(self.states.get(l, ())):
+                if [e for e in proj if e != "*"]:
+                    # `switchInt(_t.0)`: a branch on a component of a tuple of verdicts (`match (a == b, c == d) { (true, true) => … }`)
+                    if l in self._mixed:
+                        continue
+                    st = self._through_place(on[1], st)
+                    if not st:
+                        continue
                 self._decide(b["id"], t, st)
 
     def _materialised(self, blocks):
@@ -558,6 +567,8 @@ class Tracker:
             return st if wrap == "fut" else None
         if g.endswith("Future::poll") or c.endswith("Future>::poll"):
             return ("poll", steps, neg) if wrap == "fut" else None
+        if wrap == "bool" and "bool" in c and (c.endswith("::then_some") or c.endswith("::then")):
+            return ("val", ("Some",), neg)          # `cond.then_some(x)` is Some exactly when cond holds
         if wrap == "val" and len(steps) == 1:
             pos = steps[0] in POS
             negv = steps[0] in NEGV
